@@ -11,13 +11,24 @@ Fixpoint net_index (ns : list net) (n : net) (i : Z) : Z :=
 Definition path_ix (nl : netlist) (p : list net) : list Z :=
   map (fun n => net_index (nets nl) n 0) p.
 
-(* (wfb, timing_map per wire (wires order), timing_map key order, max_length,
+(* boolean forms of the hypotheses of the theorems in Props/C17.v, evaluated on
+   every dumped design so the premises are known to hold where the code was run *)
+Definition delays_okb (nl : netlist) (dl : net -> Z) : bool :=
+  forallb (fun n => Bool.eqb (dl n <? 0) (negb (is_comb (nop n))) && nonempty (nargs n)) (nets nl).
+Definition reg_dests_okb (nl : netlist) : bool :=
+  forallb (fun n => is_comb (nop n) || negb (has_dest n) || is_base nl (ndest n)) (nets nl).
+Definition single_driverb (nl : netlist) : bool :=
+  forallb (fun n1 => forallb (fun n2 =>
+      negb (has_dest n1 && has_dest n2 && (ndest n1 =? ndest n2)) || net_eqb n1 n2) (nets nl))
+    (nets nl).
+
+(* (hypotheses hold, timing_map per wire (wires order), timing_map key order, max_length,
     critical paths, fanout per wire, paths per query) *)
 Definition c17_case (nl : netlist) (tab : list (Z * (Z * Z))) (cp_limit : Z)
     (queries : list (Z * Z)) :=
   let dl := tab_delay tab nl in
   let tm := timing_map nl dl in
-  ( b2z (wfb nl),
+  ( b2z (wfb nl && delays_okb nl dl && reg_dests_okb nl && single_driverb nl),
     map (fun x => assoc tm (wname x)) (wires nl),
     map fst tm,
     max_length nl dl,
